@@ -66,6 +66,14 @@ Definition profile_set (s : Z) : list (list Z) :=
 (* transposition of a key index: same mode, tonic moved by j semitones *)
 Definition rot_key (j i : Z) : Z := if i <? 12 then (i + j) mod 12 else 12 + (i - 12 + j) mod 12.
 
+(* the same function evaluated with the twelve histogram values computed once
+   (Props/C17.v estimate_key_fast_eq: equal to estimate_key for all inputs) *)
+Definition ky_hist_tab (ns : list knote) : Z -> Z :=
+  let h := map (ky_hist ns) (zrange 0 12) in fun pc => nth (Z.to_nat pc) h 0.
+
+Definition estimate_key_fast (M : list (list Z)) (ns : list knote) : string :=
+  nth (Z.to_nat (argmax_by (key_lt M (ky_hist_tab ns)) (zrange 1 23) 0)) key_names "?"%string.
+
 (* ---- checker used by the correspondence: (profile set, notes, name returned) *)
 Definition key_check (c : Z * list knote * string) : bool :=
-  let '(s, ns, name) := c in String.eqb (estimate_key (profile_set s) ns) name.
+  let '(s, ns, name) := c in String.eqb (estimate_key_fast (profile_set s) ns) name.
